@@ -290,6 +290,12 @@ TakeMsgSilent ==      \* a message that is refused (size, quota): nothing is wri
   /\ msgQ' = Tail(msgQ)
   /\ UNCHANGED <<l, mode, verdict, cfg, netIn, netEnd, wrm, ph, inCtx, sts, nh, discW, resumeQ, secsAgo, blockedOn>>
 
+TakeMsgSkipCancelled ==   \* the statements do not require a request to be sent once its caller has gone, unless
+  /\ Stepping /\ resumeQ = <<>> /\ msgQ # <<>>            \* it is the second half of an exchange already on the wire
+  /\ Head(msgQ).op \notin DOMAIN ops /\ Head(msgQ).pk.t # "PUBREL"
+  /\ msgQ' = Tail(msgQ)
+  /\ UNCHANGED <<l, mode, verdict, cfg, S, netIn, netEnd, wrm, ph, inCtx, retd, ops, sts, nh, discW, g, resumeQ, supp, secsAgo, blockedOn>>
+
 TakeMsgWrite ==       \* a message whose packet appears on the wire as the next line
   /\ Stepping /\ resumeQ = <<>> /\ msgQ # <<>> /\ CanWrite /\ ~discW
   /\ Ev("wr")
@@ -510,7 +516,7 @@ Info ==
 
 Normal ==
   \/ Call \/ Clone \/ Inject \/ NetEnd \/ WrMode \/ Drop \/ PollOp \/ PollSt
-  \/ CtxBegin \/ TakeResumeDecide \/ TakeResume \/ TakeMsgSilent \/ TakeMsgWrite \/ TakeMsgWriteFails
+  \/ CtxBegin \/ TakeResumeDecide \/ TakeResume \/ TakeMsgSilent \/ TakeMsgSkipCancelled \/ TakeMsgWrite \/ TakeMsgWriteFails
   \/ TakePktSilent \/ TakePktWrite \/ TakePktWriteFails \/ TakePktBlocked \/ TakeOwed \/ TakeOwedFails
   \/ TakeNetEnd \/ TakeHandlesGone
   \/ CtxEndPending \/ CtxEndReturn \/ Quiescent \/ MarkDisc \/ Reconnect \/ Info \/ First \/ Fuzz \/ DiscCmp
@@ -544,12 +550,17 @@ HeadNotWritten ==
     ELSE IF nx.kind = "QuotaExceeded" THEN
            (IF g.szrej > 0 THEN V(<<"C12", "C10">>, "refused-request-left-quota-behind", <<S.quota, S.R, g.szrej>>)
             ELSE V("C10", "rejected-under-quota", <<S.quota, S.R>>))
-    ELSE IF m.pk.t \in {"PUBLISH", "PUBREL"} THEN V("C06", "request-not-written", <<m.pk.t, nx.kind>>)
-    ELSE V("C05", "request-not-written", <<m.pk.t, nx.kind>>)
+    ELSE IF m.pk.t \in {"PUBLISH", "PUBREL"} THEN V(WithC15("C06"), "request-not-written", <<m.pk.t, nx.kind>>)
+    ELSE V(WithC15("C05"), "request-not-written", <<m.pk.t, nx.kind>>)
 
 \* the reference has (on this branch) already refused the request with this topic for the given reason
 RefusedBy(tag, kind) ==
   \E k \in DOMAIN ops : ops[k].req.tag = tag /\ ops[k].slot # <<>> /\ ops[k].slot[1].k = "res" /\ ops[k].slot[1].res.kind = kind
+
+\* ... a request of this type (and, for PUBLISH, this topic)
+RefusedType(pk, kind) ==
+  \E k \in DOMAIN ops : ops[k].req.t = pk.t /\ (pk.t = "PUBLISH" => ops[k].req.tag = pk.tag)
+                        /\ ops[k].slot # <<>> /\ ops[k].slot[1].k = "res" /\ ops[k].slot[1].res.kind = kind
 
 ClassifyWr(pk) ==
   IF ph # "run" \/ discW THEN V("C13", "write-after-end", pk.t)
@@ -560,7 +571,7 @@ ClassifyWr(pk) ==
   ELSE IF pk.t \in {"PUBACK", "PUBREC", "PUBCOMP"} THEN
          V("C08", "unexpected-ack", <<pk.t, pk.id, IF netIn # <<>> THEN <<Head(netIn).t, Head(netIn).id, Head(netIn).qos>> ELSE <<>> >>)
   ELSE IF pk.t = "PUBLISH" /\ RefusedBy(pk.tag, "QuotaExceeded") THEN V("C10", "written-over-quota", <<pk.id, S.R>>)
-  ELSE IF pk.t = "PUBLISH" /\ RefusedBy(pk.tag, "MaximumPacketSizeExceeded") THEN V("C12", "written-over-limit", <<pk.t, pk.len, S.M>>)
+  ELSE IF RefusedType(pk, "MaximumPacketSizeExceeded") THEN V("C12", "written-over-limit", <<pk.t, pk.len, S.M>>)
   ELSE IF msgQ # <<>> /\ (Head(msgQ).pk.t # pk.t \/ (pk.t = "PUBLISH" /\ Head(msgQ).pk.tag # pk.tag))
           /\ \E i \in 2..Len(msgQ) : msgQ[i].pk.t = pk.t /\ (pk.t = "PUBLISH" => msgQ[i].pk.tag = pk.tag)
        THEN HeadNotWritten          \* a later request was written: the head of the queue was passed over
